@@ -255,6 +255,12 @@ def _edges_of(world, seed):
     return sorted(g.nodes), sorted((u, v, bool(d.get("inherits"))) for u, v, d in g.edges(data=True))
 
 
+def _lkey(e):
+    """Outcome of a layer-rule evaluation up to the order of lines and of the objects named in a line."""
+    return (e["out"], sorted(map(str, e.get("real", []))),
+            sorted(str((m.get("other"), m.get("sub"), sorted(map(str, m.get("objs", []))))) for m in e.get("miss", [])))
+
+
 def listing_order_cases(ctx, rng, only=None):
     diffs, n = [], 0
     worlds = []
@@ -415,6 +421,30 @@ def run(ctx):
                 fails.append({"prop": "C15", "clause": "outcome-depends-on-evaluation-order", "detail": {"calls": bad[:5]},
                               "event": {"call": bad[0], "first_order": oa[bad[0]], "other_order": ob.get(bad[0])},
                               "spec": {"driver": "family-orders", "a": sp, "b": spr, "kind": kind}, "episode_events": None})
+    # (O4) the same layer rules with every list argument reversed (object layers of a rule, modules of a layer): the
+    # order in which layers or modules are listed is no part of a rule's meaning
+    def _rev_lists(sp):
+        items = []
+        for it in sp["items"]:
+            it = dict(it)
+            if it.get("op") == "leval":
+                it["rule"] = dict(it["rule"], objs=list(reversed(it["rule"]["objs"])))
+                it["layers"] = [dict(l, listed=list(reversed(l["listed"]))) for l in it["layers"]]
+            items.append(it)
+        return dict(sp, items=items)
+    la = runner.run_specs(lspecs)
+    lb = runner.run_specs([_rev_lists(sp) for sp in lspecs])
+    list_order_diffs = 0
+    for sp, ea, eb in zip(lspecs, la, lb):
+        oa = {e["rid"] + "@" + e["a"]: _lkey(e) for e in ea if e["k"] == "leval"}
+        ob = {e["rid"] + "@" + e["a"]: _lkey(e) for e in eb if e["k"] == "leval"}
+        bad = sorted(k for k in oa if oa[k] != ob.get(k))
+        if bad:
+            list_order_diffs += 1
+            fails.append({"prop": "C15", "clause": "layer-rule-outcome-depends-on-the-order-of-a-list-argument",
+                          "detail": {"calls": bad[:5]},
+                          "event": {"call": bad[0], "as_listed": oa[bad[0]], "lists_reversed": ob.get(bad[0])},
+                          "spec": {"driver": "list-orders", "a": sp}, "episode_events": None})
     # (L) graph construction must not depend on the ORDER of the module list and the import list (which is what the
     # directory enumeration order turns into) - also when a package imports its own direct sub module, which real
     # scans produce for 'a.py' next to 'a/' (outside the scan generators' input language, so it is covered here)
@@ -440,7 +470,7 @@ def run(ctx):
            "traces_validated_against_impl": n_traces, "trace_events": events,
            "simulated_histories": len(hists), "history_length": 40, "applies_compared_with_isolated_evaluation": applies,
            "same_law_instances": laws, "hash_seeds": SEEDS, "episodes_per_seed": len(hspecs),
-           "seed_differences": seed_diffs, "listing_order_cases": listing_cases, "layer_and_label_order_differences": fam_order_diffs, "rule_order_pairs": len(rpairs), "rule_order_differences": rule_order_diffs, "scan_order_pairs": len(ospecs), "scan_order_differences": order_diffs, "evaluations": applies + laws + len(hspecs) * len(SEEDS),
+           "seed_differences": seed_diffs, "listing_order_cases": listing_cases, "layer_and_label_order_differences": fam_order_diffs, "layer_list_order_differences": list_order_diffs, "rule_order_pairs": len(rpairs), "rule_order_differences": rule_order_diffs, "scan_order_pairs": len(ospecs), "scan_order_differences": order_diffs, "evaluations": applies + laws + len(hspecs) * len(SEEDS),
            "distinct_applies_on_nonempty_architectures": len(distinct_applies),
            "distinct_nontrivial": len(distinct_applies) + laws,
            "rule": "one case = one Apply inside a 40-step history (compared with the isolated evaluation), one "
@@ -488,6 +518,18 @@ def replay(ctx, rp):
     if spec["driver"] == "graph":
         from harness.checks import scan_common as sc
         return sc.replay(ctx, rp)
+    if spec["driver"] == "list-orders":
+        sp = spec["a"]
+        rv = dict(sp, items=[dict(it, rule=dict(it["rule"], objs=list(reversed(it["rule"]["objs"]))),
+                                  layers=[dict(l, listed=list(reversed(l["listed"]))) for l in it["layers"]])
+                             if it.get("op") == "leval" else it for it in sp["items"]])
+        ea, eb = runner.run_specs([sp], 1)[0], runner.run_specs([rv], 1)[0]
+        oa = {e["rid"] + "@" + e["a"]: _lkey(e) for e in ea if e["k"] == "leval"}
+        ob = {e["rid"] + "@" + e["a"]: _lkey(e) for e in eb if e["k"] == "leval"}
+        bad = sorted(k for k in oa if oa[k] != ob.get(k))
+        fails = [{"prop": "C15", "clause": "layer-rule-outcome-depends-on-the-order-of-a-list-argument",
+                  "detail": {"calls": bad[:5]}, "event": None, "spec": spec, "episode_events": None}] if bad else []
+        return CheckResult(fails=fails, coverage={"replayed_calls": len(oa)})
     if spec["driver"] == "listing":
         diffs, _ = listing_order_cases(ctx, random.Random(0), only=spec["world"])
         fails = [{"prop": "C15", "clause": "architecture-depends-on-the-order-of-modules-or-imports", "detail": d["diff"],
